@@ -27,3 +27,8 @@ Proof.
     congruence.
   - apply inclb_incl. vm_compute. reflexivity.
 Qed.
+
+(* the interpreter is configured by the audited options and calls only *)
+Lemma interpreter_config_ok :
+  lua_newstate_options = audited_options /\ incl lua_state_methods audited_state_methods.
+Proof. split; [reflexivity | apply inclb_incl; vm_compute; reflexivity]. Qed.
